@@ -996,6 +996,27 @@ pub struct OvlValue {
     #[serde(rename = "$value", default)]
     pub items: Vec<OvlChoice>,
 }
+/// two lists next to two optional fields (a struct and a string): hand-written documents may carry
+/// them as `xsi:nil="true"` elements whose content has to be dropped
+#[derive(Serialize, Deserialize, Debug, PartialEq, Clone, Default)]
+#[serde(rename = "s_ovlopt")]
+pub struct OvlOpt {
+    #[serde(default)]
+    pub t_a: Vec<String>,
+    #[serde(skip_serializing_if = "Option::is_none", default)]
+    pub s_item2: Option<OvlItem2>,
+    #[serde(default)]
+    pub t_b: Vec<u32>,
+    #[serde(skip_serializing_if = "Option::is_none", default)]
+    pub t_opt: Option<String>,
+}
+/// a shape one level down: hand-written documents declare their namespace prefixes on the wrapper, i.e.
+/// on an ancestor of the container whose children are interleaved
+#[derive(Serialize, Deserialize, Debug, PartialEq, Clone, Default)]
+#[serde(rename = "s_ovlwrap")]
+pub struct OvlWrap<T> {
+    pub w_inner: T,
+}
 /// nested struct with its own lists
 #[derive(Serialize, Deserialize, Debug, PartialEq, Clone, Default)]
 #[serde(rename = "s_ovlnested")]
@@ -1422,6 +1443,44 @@ pub fn ovl_family() -> Vec<(TypeOps, fn(&mut Rng, usize) -> Box<dyn Val>)> {
         }),
         (ops!(OvlNested, "OvlNested"), |r, m| {
             Box::new(OvlNested { t_a: gen_ovl_strings(r, m), s_ovl2: gen_ovl2(r, 2), t_c: gen_ovl_strings(r, m.min(2)) })
+        }),
+        (ops!(OvlWrap<OvlOpt>, "WrapOvlOpt"), |r, m| {
+            Box::new(OvlWrap {
+                w_inner: OvlOpt {
+                    t_a: gen_ovl_strings(r, m),
+                    s_item2: if r.below(3) == 0 { Some(OvlItem2 { t_a: gen_ovl_strings(r, 2), t_b: gen_ovl_nums(r, 2) }) } else { None },
+                    t_b: gen_ovl_nums(r, m),
+                    t_opt: if r.below(3) == 0 { Some(gen_nonempty(r, Pos::Text)) } else { None },
+                },
+            })
+        }),
+        (ops!(OvlWrap<OvlScalar>, "WrapOvlScalar"), |r, m| {
+            Box::new(OvlWrap {
+                w_inner: OvlScalar {
+                    k: r.next() as u8,
+                    t_a: gen_ovl_strings(r, m),
+                    t_one: gen_string(r, Pos::Text),
+                    t_b: gen_ovl_nums(r, m),
+                    t_opt: if r.bool() { Some(gen_nonempty(r, Pos::Text)) } else { None },
+                },
+            })
+        }),
+        (ops!(OvlWrap<OvlRec>, "WrapOvlRec"), |r, m| {
+            Box::new(OvlWrap {
+                w_inner: OvlRec {
+                    t_a: gen_ovl_strings(r, m.min(3)),
+                    t_b: (0..r.below(m.min(3) + 1)).map(|_| OvlNode { id: r.next() as u8, t_b: (0..r.below(3)).map(|_| OvlLeaf { id: r.next() as u8 }).collect() }).collect(),
+                    t_c: gen_ovl_strings(r, m.min(3)),
+                },
+            })
+        }),
+        (ops!(OvlOpt, "OvlOpt"), |r, m| {
+            Box::new(OvlOpt {
+                t_a: gen_ovl_strings(r, m),
+                s_item2: if r.below(3) == 0 { Some(OvlItem2 { t_a: gen_ovl_strings(r, 2), t_b: gen_ovl_nums(r, 2) }) } else { None },
+                t_b: gen_ovl_nums(r, m),
+                t_opt: if r.below(3) == 0 { Some(gen_nonempty(r, Pos::Text)) } else { None },
+            })
         }),
     ]
 }
